@@ -358,7 +358,7 @@ def c06(ctx):
     cov.update(
         evaluations=g2["evaluations"] + g3["evaluations"] + crep["evaluations"] + srep["evaluations"],
         distinct_nontrivial=g2["extra"]["gated_concurrent"] + g3["extra"]["gated_concurrent"],
-        rule="design: all interleavings of 2 goroutines x 2 calls and 3 x 1 over the Sys.tla menu (RWExcl, reader/writer accounting, TreeStableUnderRLock, PublishedComplete, Linearizable, LookupLinearizable; termination under fairness). code: TLC-simulated interleavings (2 goroutines x 3 calls, 3 x 2) replayed with the hook points as scheduler gates on a -race build, results compared at every return; free-running executions (8 goroutines, random mix of Detect/DetectReader/DetectFile/SetLimit/Extend with caller-owned alias slices of capacity len, len+1, len+8/Lookup) logged at the hook points and validated by TraceConc.tla with the atomic load/store as silent steps; untraced stress under the race detector. non-trivial = gated concurrent behaviours replayed",
+        rule="design: all interleavings of 2 goroutines x 2 calls and 3 x 1 over the Sys.tla menu (RWExcl, reader/writer accounting, TreeStableUnderRLock, PublishedComplete, Linearizable, LookupLinearizable; termination under fairness). code: TLC-simulated interleavings (2 goroutines x 3 calls, 3 x 2) replayed with the hook points as scheduler gates on a -race build, results compared at every return; free-running executions (8 goroutines, random mix of Detect/DetectReader/DetectFile/SetLimit/Extend with caller-owned alias slices of capacity len, len+1, len+8/Lookup) logged at the hook points and validated by TraceConc.tla with the atomic load/store as silent steps; untraced stress under the race detector: bursts of Extends on one parent, cold starts in fresh processes (first detections concurrent; the first Extend of the process racing with detections), a corpus-wide stress whose concurrent results must equal the sequential ones (inputs shared between goroutines, fresh charset labels), and single results shared by all goroutines for their first String / Is / Parent calls. non-trivial = gated concurrent behaviours replayed",
         exhaustive=False,
         free_running=dict(runs=crep["extra"]["runs"], events=crep["extra"]["events"], rejected_traces=rejected),
         race_stress=dict(ops=srep.get("evaluations", 0), race_reports=len(races)),
@@ -408,7 +408,7 @@ def c05(ctx):
     cov = dict(
         evaluations=rep["evaluations"] + trep["evaluations"],
         distinct_nontrivial=rep["extra"]["with_fault_before_header_complete"] + trep["extra"]["cases_with_surfaced_fault"],
-        rule="model: data length 0..%s x limit 0..%s x injected fault at every offset (or none) x every reply schedule of a conforming reader (short reads, (0,nil), EOF with or after the last bytes, fault with or after data); invariants ReadsStopAtLimit, NoFaultMeansPrefix, FaultSurfaces, OnlyInjected; termination under fairness. every behaviour is replayed with a scripted reader over 6 real payloads (unit = 2 bytes) comparing error identity, bytes consumed and the type with Detect on the same header; DetectFile on temp files, a missing path and a directory. traces: corpus x limits {0,1,7,3072,len-1,len,len+1} x chunking styles x faults at random offsets, every Read call logged and validated by TraceReader.tla. non-trivial = cases with a fault before the header was complete" % (("4", "5") if quick else ("6", "7")),
+        rule="model: data length 0..%s x limit 0..%s x injected fault at every offset (or none) x every reply schedule of a conforming reader (short reads, (0,nil), EOF with or after the last bytes, fault with or after data); invariants ReadsStopAtLimit, NoFaultMeansPrefix, FaultSurfaces, OnlyInjected; termination under fairness. every behaviour is replayed with a scripted reader over 6 real payloads (the model's abstract byte = 2, 256 and 512 real bytes, so faults and limits also fall on 512-byte boundaries) comparing error identity, bytes consumed and the type with Detect on the same header; DetectFile / DetectReader(*os.File) / pipes on files of every size around the limit, readers that were already read from (bytes.Reader, strings.Reader, SectionReader, *os.File positioned at 1, 4, 9), procfs files (regular, size 0), inputs of 4095..32769 bytes under limits around 4096*2^k through three reader kinds; a missing path and a directory. traces: corpus x limits {0,1,7,3072,len-1,len,len+1} x chunking styles x faults at random offsets, every Read call logged and validated by TraceReader.tla. non-trivial = cases with a fault before the header was complete" % (("4", "5") if quick else ("6", "7")),
         exhaustive=True,
         drift=dict(count=rep["drift"], samples=rep.get("drift_samples", [])[:3]),
         samples=rep["samples"][:4] + trep["samples"][:4],
